@@ -38,11 +38,11 @@ import (
 	"github.com/bio-routing/bio-rd/zzverif/vh"
 )
 
-// zvC16Bound is the allocation bound for one Decode call on an input of n bytes.
-// Declared lengths are 16 bit, so a decoder may size a buffer or two by a
-// declared length before it notices the short read (2 x 64 KiB observed for an
-// unknown attribute); everything else has to be proportionate to the input.
-func zvC16Bound(n int) uint64 { return 256<<10 + 64*uint64(n) }
+// zvC16Bound is the allocation bound for one Decode call on an input of n bytes
+// (DESIGN.md C16): a constant for the fixed structures, error texts and the like,
+// plus 64 bytes per input byte (an NLRI of one input byte becomes a 48-byte NLRI
+// struct; nothing may be sized by a declared length alone).
+func zvC16Bound(n int) uint64 { return 64<<10 + 64*uint64(n) }
 
 func zvC16Opts() []DecodeOptions {
 	var o []DecodeOptions
